@@ -814,7 +814,7 @@ Print Assumptions from_format_rejects_cookie_rfc850_formats.
    and +24 h (CPython's own bound on tzinfo.utcoffset) — there the float code agrees with the hand model's integer arithmetic, checked
    exhaustively in the kernel (172799 offsets).  Generated DATA, not translated here: _TOKENS, _TOKENS_RULES (apply_rule is the model's reading of
    one rule), _LOCALIZABLE_TOKENS, _DATE_FORMATS, _DEFAULT_DATE_FORMATS, DateTime._FORMATS, the to_*_string table, the locales. *)
-From PV Require Import Spec.TdFloat Model.FormatterPrims Gen.FormatterMethods Proofs.FormatterMethodsFacts.
+From PV Require Import Spec.TdFloat Model.FormatterPrims Gen.FormatterMethods Proofs.FormatterOffsetFacts Proofs.FormatterMethodsFacts.
 
 Theorem model_is_code_format_localizable_token : forall loc t tok, gen_format_localizable_token loc t tok = format_localizable loc t tok.
 Proof. exact gen_format_localizable_eq. Qed.
